@@ -110,3 +110,8 @@ check_C09() {
   build_proxy
   wire_part wire stress
 }
+
+check_C17() {
+  build_proxy
+  wire_part wire twin
+}
